@@ -252,6 +252,12 @@ def gen(repo):
     out.append('(* NumericColumn.std = nanstd(self._seq, ddof=...) *)\nDefinition k_np_ddof : Z := %s.\n' % ddof)
     for name in ('max', 'min', 'sum'):
         body = prop_body(num, 'NumericColumn.%s' % name)
+        if name == 'sum' and len(body) == 3:
+            # an integer buffer is summed exactly (Python ints: no int64 wrap-around) before the conversion to float;
+            # Model/Stats.v takes the exact sum of the cells for every column type
+            expect_same(body[1], 'if issubclass(self._seq.dtype.type, np.integer):\n'
+                                 '    return CallableFloat(self._seq.sum(dtype=object))')
+            body = [body[0], body[2]]
         if len(body) != 2:
             raise TranslationError('NumericColumn.%s: statement count' % name)
         g0 = guard_return_nan(body[0], Env(zseq), 'NumericColumn.' + name,
@@ -262,6 +268,21 @@ def gen(repo):
     if len(body) != 1:
         raise TranslationError('NumericColumn.unique: statement count')
     expect_same(body[0], 'return np.unique(self._seq)')
+    # ---- the NumPy statistics reduce `self._seq` itself, whereas the CELLS of a numeric column are read through
+    # `self.dtype(self._seq[key])`: the model (Model/Stats.v i_stat: the statistics of the ints the column holds) needs
+    # the buffer of an IntColumn to hold integers.  Assignment converts through _checktype / _tosequence (C05); the
+    # other writer of `_seq` is _operate (the result column of an operator, incl. the reflected true division that
+    # IntColumn does not override), where IntColumn casts the result back to its dtype.  Pinned.
+    body = body_nodoc(find_function(num, 'NumericColumn._getintkey'))
+    if len(body) != 1:
+        raise TranslationError('NumericColumn._getintkey: statement count')
+    expect_same(body[0], 'return self.dtype(self._seq[key])')
+    body = body_nodoc(find_function(num, 'IntColumn._operate'))
+    if len(body) != 3:
+        raise TranslationError('IntColumn._operate: statement count')
+    expect_same(body[0], 'col = super(IntColumn, self)._operate(other, number_op, str_op=None, flip=flip)')
+    expect_same(body[1], 'col._seq = col._seq.astype(self.dtype)')
+    expect_same(body[2], 'return col')
     for cls in ('FloatColumn', 'IntColumn', 'MixedColumn'):
         tree = num if cls != 'MixedColumn' else load(repo, 'datamatrix/_datamatrix/_mixedcolumn.py')
         c = find_function(tree, cls)
